@@ -380,6 +380,7 @@ KERNELS = {
     "mask_channels": ["array", "mask"],
     "dedisperse": ["inarray", "outarray", "delays"],
     "subband": ["inarray", "outarray", "delays", "chan_to_sub"],
+    "remove_zerodm": ["inarray", "outarray", "bpass", "chanwts"],
     "invert_freq": ["array"],
     "downsample_1d_mean": ["array"],
     "downsample_2d_mean_flat": ["array"],
@@ -1017,6 +1018,27 @@ def gen_transform_sites(repo="/repo"):
                    "  ((fun k => data ((k / chanpersub) * nchans + c0 + k mod chanpersub)), nsamps_r * chanpersub).\n")
     except Unsupported as e:
         errors.append(f"extract: {e}"); out.append(f"(* UNSUPPORTED extract: {str(e).replace('*)', '* )')} *)\n")
+    # ---- remove_zerodm (the output buffer persists between blocks; bpass/chanwts are computed once, before the loop)
+    try:
+        KERNEL_OUT["remove_zerodm"] = (1, 6)
+        fn = method("remove_zerodm")
+        loop = plan_site(fn, "0", ("(nsamps_r, _ii, data)", "(nsamps_r, _, data)"))
+        cx = cxn(["data", "out_ar", "bpass", "chanwts"])
+        txt = ast.unparse(fn)
+        for need in ("bpass = self.bandpass(**plan_kwargs).data", "chanwts = bpass / bpass.sum()"):
+            if need not in txt:
+                raise Unsupported("remove_zerodm: expected line not found: " + need)
+        if len(loop.body) != 2:
+            raise Unsupported("remove_zerodm: loop body changed (expected: kernel, cwrite)")
+        a = args_of(loop.body[0], "remove_zerodm", cx)
+        name, size = cwrite_arg(loop.body[1], {}, cx)
+        if a[1] != "out_ar" or name != "out_ar":
+            raise Unsupported("remove_zerodm: the array the kernel fills is not the one written")
+        out.append("(* from Filterbank.remove_zerodm; bpass = self.bandpass().data, chanwts = bpass / bpass.sum() *)")
+        out.append(f"Definition zerodm_block (out_ar data bpass chanwts : arr) (nchans nsamps_r : Z) : arr * Z :=\n"
+                   f"  let out_ar := remove_zerodm_run {' '.join(a)} in ({name}, {size}).\n")
+    except Unsupported as e:
+        errors.append(f"remove_zerodm: {e}"); out.append(f"(* UNSUPPORTED remove_zerodm: {str(e).replace('*)', '* )')} *)\n")
     return "\n".join(out), errors
 
 
